@@ -3,7 +3,7 @@
 //! A string-optimized hash map that provides basic string interning functionality
 //! while maintaining compatibility with the zipora ecosystem.
 
-use crate::error::Result;
+use crate::error::{Result, ZiporaError};
 use crate::string::FastStr;
 use std::collections::HashMap;
 
@@ -125,11 +125,16 @@ impl<V> HashStrMap<V> {
     }
 
     /// Insert using a FastStr key directly (compatibility)
+    ///
+    /// Keys are stored as `String`s, so a key that is not valid UTF-8 is refused
+    /// with an error and the map is left unchanged.
     pub fn insert_fast_str(&mut self, key: FastStr, value: V) -> Result<Option<V>> {
         if let Some(s) = key.as_str() {
             self.insert(s, value)
         } else {
-            self.insert(&String::from_utf8_lossy(key.as_bytes()), value)
+            Err(ZiporaError::invalid_data(
+                "HashStrMap key is not valid UTF-8",
+            ))
         }
     }
 
